@@ -86,9 +86,14 @@ def run(chk, P, units, rule="R-UNINIT", maxstates=150000):
                 continue
             T = f.unit.types
             bare = set()
+            nullp = set()      # pointer locals initialised to NULL: a failed reader leaves them NULL
             for n in f.walk():
                 if n["k"] == "Var" and not (n.get("c") and n["c"][0] is not None) and _scalar(T[n["t"]]) and not n.get("static"):
                     bare.add(n["n"])
+                elif n["k"] == "Var" and n.get("c") and n["c"][0] is not None and T[n["t"]].get("ptr") and cval(n["c"][0]) == 0 and not n.get("static"):
+                    nullp.add(n["n"])
+            nullp -= bare
+            bare |= nullp
             sites = []
             if not bare:
                 continue
@@ -108,20 +113,20 @@ def run(chk, P, units, rule="R-UNINIT", maxstates=150000):
                 byc.setdefault(cid, []).append(v)
             bad = {}
             vars_ = set()
-            def obs(n, env, f=f, vars_=vars_, byc=byc, bad=bad):
+            def obs(n, env, f=f, vars_=vars_, byc=byc, bad=bad, nullp=nullp):
                 k = n["k"]
                 if k == "DeclStmt":
                     for v in n["c"]:
                         if v["n"] in vars_:
                             if v.get("c") and v["c"][0] is not None:
-                                env["?" + v["n"]] = 0
+                                env["?" + v["n"]] = 3 if (v["n"] in nullp and cval(v["c"][0]) == 0) else 0
                             else:
                                 env["?" + v["n"]] = 1
                             env.pop("?@" + v["n"], None)
                     return
                 a = assigned(n)
                 if a and lv(a[0]) in vars_ and a[1] == "=":
-                    env["?" + lv(a[0])] = 0
+                    env["?" + lv(a[0])] = 3 if (lv(a[0]) in nullp and a[2] is not None and cval(a[2]) == 0) else 0
                     return
                 if k == "Call" and n["id"] not in byc:
                     # address handed to anything else: taken to be stored
@@ -129,6 +134,17 @@ def run(chk, P, units, rule="R-UNINIT", maxstates=150000):
                         x2 = strip(x)
                         if x2 is not None and x2["k"] == "Unary" and x2["op"] == "&" and lv(x2["c"][0]) in vars_:
                             env["?" + lv(x2["c"][0])] = 0
+                    return
+                if k in ("Member", "Unary", "Sub"):
+                    base = None
+                    if k == "Member" and n.get("arrow"):
+                        base = lv(n["c"][0])
+                    elif k == "Unary" and n["op"] == "*":
+                        base = lv(n["c"][0])
+                    elif k == "Sub":
+                        base = lv(n["c"][0])
+                    if base in vars_ and env.get("?" + base) == 3 and env.get("?@" + base) is not None and env.get(base) == 0:
+                        bad.setdefault((base, env["?@" + base]), f.loc(n))
                     return
                 if k == "Ref" and n["n"] in vars_ and env.get("?" + n["n"]) == 1 and env.get("?@" + n["n"]) is not None:
                     par = f.par(n)
@@ -148,6 +164,9 @@ def run(chk, P, units, rule="R-UNINIT", maxstates=150000):
                         upd["?" + v] = 0
                     elif env.get("?" + v) == 1:
                         upd["?@" + v] = c.get("l") or 0
+                    elif env.get("?" + v) == 3:
+                        upd["?@" + v] = c.get("l") or 0
+                        upd[v] = 0          # still NULL: tests of the pointer are evaluated
             # constants are kept only for status/flag locals: every assignment is a constant or the result of a call
             flagv = {}
             for n in f.walk():
@@ -181,7 +200,7 @@ def run(chk, P, units, rule="R-UNINIT", maxstates=150000):
                                 errv.add(lv(a[0]))
                             elif par["k"] == "Var":
                                 errv.add(par["n"])
-                for tr in (errv, track):
+                for tr in (errv | {one}, track | {one}):
                     for k0 in [k for k in bad if k[0] == one]:
                         del bad[k0]
                     try:
@@ -201,8 +220,9 @@ def run(chk, P, units, rule="R-UNINIT", maxstates=150000):
                 hit = bad.get((v, c.get("l") or 0))
                 ordn[(v, c["fn"])] = ordn.get((v, c["fn"]), 0) + 1
                 chk.inst(rule, f, "%s@%s#%d" % (v, c["fn"], ordn[(v, c["fn"])]), hit is None,
-                         "`%s` is declared without a value and filled by %s() on success only: it is not read on a path where that call failed%s"
-                         % (v, c["fn"], "" if hit is None else " -- but it is read at %s after the call at line %s failed" % (hit, c.get("l"))), loc=f.loc(c))
+                         ("`%s` is NULL until %s() fills it, on success only: it is not dereferenced on a path where that call failed%s" if v in nullp else
+                          "`%s` is declared without a value and filled by %s() on success only: it is not read on a path where that call failed%s")
+                         % (v, c["fn"], "" if hit is None else " -- but it is %s at %s after the call at line %s failed" % ("dereferenced" if v in nullp else "read", hit, c.get("l"))), loc=f.loc(c))
     return nsites, len(readers)
 
 
